@@ -1039,6 +1039,14 @@ func shapeRules(c *core.Ctx) {
 						first = false
 						if bo, ok := e.Cond.(*ssa.BinOp); ok {
 							x, y, op := bo.X, bo.Y, bo.Op
+							// s == "" / s != ""
+							for _, pair := range [][2]ssa.Value{{x, y}, {y, x}} {
+								if kc, isKc := pair[1].(*ssa.Const); isKc && pair[0] == sArg && kc.Value != nil && kc.Value.Kind() == constant.String && constant.StringVal(kc.Value) == "" {
+									if (op == token.EQL) == e.Taken && (op == token.EQL || op == token.NEQ) {
+										emptyKnown = true
+									}
+								}
+							}
 							if _, isK := constInt(x); isK {
 								x, y = y, x
 								op = map[token.Token]token.Token{token.LSS: token.GTR, token.GTR: token.LSS, token.LEQ: token.GEQ, token.GEQ: token.LEQ, token.EQL: token.EQL, token.NEQ: token.NEQ}[op]
